@@ -18,8 +18,8 @@ VARIABLES tid, l, active, verdict
 T == Traces[tid]
 Tup(s) == [i \in DOMAIN s |-> s[i]]
 Seen(s) == [i \in DOMAIN s |-> Tup(s[i])]
-TInit == /\ tid \in 1..Len(Traces) /\ l = 1 /\ verdict = "run" /\ active = [r \in Runs |-> [on |-> FALSE, p |-> None, script |-> <<>>, silent |-> FALSE, fault |-> 0]]
-         /\ sess = [p \in Provs |-> NoCols] /\ run = [r \in Runs |-> New] /\ log = <<>>
+TInit == /\ tid \in 1..Len(Traces) /\ l = 1 /\ verdict = "run" /\ active = [r \in Runs |-> [on |-> FALSE, p |-> None, script |-> <<>>, silent |-> FALSE, fault |-> 0, dia |-> "ansi"]]
+         /\ sess = [p \in Provs |-> NoCols] /\ run = [r \in Runs |-> New] /\ log = <<>> /\ pcache = {}
 FreshAnswer(p) == IF Base(p) # NoCols THEN Base(p) ELSE Star
 InUse(A, p) == \E r \in Runs : A[r].on /\ A[r].p = p
 IdleProvidersFresh(A, e) == \A p \in Provs : ~InUse(A, p) => Tup(e.answers[p]) = FreshAnswer(p)
@@ -28,8 +28,8 @@ Check(e) ==
      [] e.e = "step" -> IF ~IdleProvidersFresh(active, e) THEN "session_empty_outside_runs" ELSE "ok"
      [] e.e = "exit" ->
           LET a == active[e.r]
-              i == Solo(Tup(a.script), a.p, a.silent, a.fault)
-              j == Solo(WithoutUnsup(Tup(a.script)), a.p, FALSE, a.fault)
+              i == Solo(Tup(a.script), a.p, a.silent, a.fault, a.dia)
+              j == Solo(WithoutUnsup(Tup(a.script)), a.p, FALSE, a.fault, a.dia)
               A2 == [active EXCEPT ![e.r].on = FALSE] IN
           IF e.outcome \notin {"ok", "InvalidSyntaxException", "UnsupportedStatementException", "ProviderFault"} THEN "outcome_in_contract"
           ELSE IF e.outcome # i.outcome THEN "result_independent_of_history:outcome"
@@ -44,10 +44,10 @@ TNext == /\ verdict = "run"
             ELSE LET e == T.ev[l]  c == Check(e) IN
                  IF c # "ok" THEN verdict' = c /\ UNCHANGED <<l, active>>
                  ELSE /\ verdict' = "run" /\ l' = l + 1
-                      /\ active' = CASE e.e = "begin" -> [active EXCEPT ![e.r] = [on |-> TRUE, p |-> e.p, script |-> e.script, silent |-> e.silent, fault |-> e.fault]]
+                      /\ active' = CASE e.e = "begin" -> [active EXCEPT ![e.r] = [on |-> TRUE, p |-> e.p, script |-> e.script, silent |-> e.silent, fault |-> e.fault, dia |-> e.dia]]
                                      [] e.e = "exit" -> [active EXCEPT ![e.r].on = FALSE]
                                      [] OTHER -> active
-         /\ UNCHANGED <<tid, sess, run, log>>
+         /\ UNCHANGED <<tid, sess, run, log, pcache>>
 TSpec == TInit /\ [][TNext]_<<vars, tid, l, active, verdict>>
 Report == verdict # "run" => PrintT(<<"VERDICT", tid, l, verdict>>)
 =============================================================================
